@@ -13,6 +13,10 @@ impl<'a> WriteableGraph for EngineWriteTxn<'a> {
             .map_err(|e| Error::Other(e.to_string()))
     }
 
+    fn fresh_external_id(&mut self, hint: ExternalId) -> ExternalId {
+        EngineWriteTxn::fresh_external_id(self, hint)
+    }
+
     fn add_node_label(&mut self, node: InternalNodeId, label_id: LabelId) -> Result<()> {
         EngineWriteTxn::add_node_label(self, node, label_id)
             .map_err(|e| Error::Other(e.to_string()))
